@@ -297,10 +297,11 @@ class ExpandedTraceback:
             end_offset = frame.end_colno+1 if frame.lineno == frame.end_lineno else len(frame.line)
             return formatter.python_code(frame.line, focus=Location(0, frame.colno + 1, 0, end_offset))
         elif IS_AT_LEAST_PYTHON_311:
-            end_offset = frame.end_colno+1 if frame.lineno == frame.end_lineno else len(frame._line)
             # Note: Need to use _line because in 3.10 and above, the line gets stripped.
             # https://github.com/python/cpython/commit/5644c7b3ffd49bed58dc095be6e6148e0bb4431e
+            # (there is no line to show for a file that is not part of the submission)
             line = frame._line if frame._line is not None else ''
+            end_offset = frame.end_colno+1 if frame.lineno == frame.end_lineno else len(line)
             return formatter.python_code(line, focus=Location(0, frame.colno+1, 0, end_offset))
         elif IS_AT_LEAST_PYTHON_310:
             return formatter.python_code(frame._line if frame._line is not None else '')
